@@ -84,6 +84,11 @@ Theorem C16_loop_groups_are_classes : forall layer,
   /\ filter (is_kind SBar) layer = filter (fun i => cls_eqb (model_class i) CSample) layer.
 Proof. exact iter_groups_are_classes. Qed.
 Print Assumptions C16_loop_groups_are_classes.
+(* the count that sizes the result arrays (simulator._run_strong_sim, regenerated from the source) and the loop agree on what a sampling
+   barrier is: a node gets a result column exactly when the loop samples at it *)
+Theorem C16_source_count_is_sampling : forall d, counted_src d = cls_eqb (classify_src d) CSample.
+Proof. exact counted_iff_sampled. Qed.
+Print Assumptions C16_source_count_is_sampling.
 Example C16_layer_rule_example :
   classify_src ex_labelled_barrier = CSample /\ classify_src ex_plain_barrier = CDrop /\ classify_src ex_cx_21 = COdd
   /\ represents ex_cx_21 (mk 7 G2 [2;1]).
